@@ -156,7 +156,10 @@ class Project:
             self._write(df, script_text(self.w.rules[df][k], k, df))
             m.set_variant(df, k)
         elif kind == "dorm":
-            os.unlink(self.p / op[1])
+            try:
+                os.unlink(self.p / op[1])
+            except FileNotFoundError:
+                pass
             m.user_rm(op[1])
         else:
             raise MachineryError("unknown op %r" % (op,))
